@@ -1,8 +1,10 @@
 (* C17 — Inactivity shutdown needs all parties idle at once and cannot deadlock.
    Property theorems only; each is closed by [exact] of a lemma of Proofs/VoterProofs.v.
    The model (Model/Voter.v) is the timeout coordinator at atomic granularity: a schedule is any
-   list of (party, micro-step); steps the API's program order does not allow are no-ops. *)
-From SwimV Require Import Model.Voter Proofs.VoterProofs.
+   list of (party, micro-step); steps the API's program order does not allow are no-ops.
+   Model/VoterWake.v adds the wake-up side: the voter's waker.wake() as a micro-step of its own and the
+   three steps of Receiver::poll (load, register, load), interleaved arbitrarily with everything else. *)
+From SwimV Require Import Model.VoterWake Proofs.VoterProofs Proofs.VoterWakeProofs.
 
 (* every state reachable by any schedule from a fresh n-party coordinator satisfies Inv *)
 Theorem C17_reachable_invariant : forall n sc, 2 <= n -> Inv (exec (init n) sc).
@@ -70,3 +72,47 @@ Proof. exact rescind_cas_succeeds_if_undisturbed. Qed.
 (* API-level (atomic) operations stay inside the invariant *)
 Theorem C17_api_reachable_invariant : forall n ops, 2 <= n -> Inv (run_state (init n) ops).
 Proof. intros n ops H. apply reachable_inv. exact (inv_init n H). Qed.
+
+(* ---- the receiver is never left waiting: no lost wake-up, in any interleaving, for any n >= 2 ---- *)
+
+(* never: unanimity reached, the receiver's last poll returned Pending, its task not notified since, and no
+   voter about to call wake *)
+Theorem C17_no_lost_wakeup : forall n sc, 2 <= n -> lost_wakeup (wexec (winit n) sc) = false.
+Proof. exact no_lost_wakeup. Qed.
+
+(* the wake that is owed does notify the parked receiver (it finds the registered waker) *)
+Theorem C17_owed_wake_notifies : forall w, WInv w ->
+  all_set (shared (core w)) = true -> phase w = RParked -> woken w = false ->
+  exists i, mem i (pend w) = true /\ woken (wstep w (WWake i)) = true.
+Proof. exact owed_wake_notifies. Qed.
+
+(* and the poll that follows returns Ready *)
+Theorem C17_poll_after_unanimity_is_ready : forall w, all_set (shared (core w)) = true ->
+  phase w = RParked \/ phase w = RIdle -> phase (wstep w WLoad1) = RDone.
+Proof. exact poll_after_unanimity_is_ready. Qed.
+
+(* a wake is owed only once unanimity has been reached *)
+Theorem C17_wake_only_at_unanimity : forall n sc, 2 <= n ->
+  pend (wexec (winit n) sc) <> [] -> receiver_ready (core (wexec (winit n) sc)) = true.
+Proof. exact wake_only_at_unanimity. Qed.
+
+(* what a single-threaded user of the API observes (the correspondence check's view): a receiver whose last
+   poll returned Pending has been woken as soon as unanimity is reached - by a vote or by a voter being dropped *)
+Theorem C17_api_parked_receiver_is_woken : forall n ops, 2 <= n ->
+  let w := wapi_state (winit n) ops in
+  receiver_ready (core w) = true -> phase w = RParked -> woken w = true.
+Proof. exact api_parked_receiver_is_woken. Qed.
+
+(* the layered machine does not change the coordinator: its state is Model/Voter.v's *)
+Theorem C17_wake_layer_conservative : forall n ops, 2 <= n ->
+  core (wapi_state (winit n) ops) = run_state (init n) ops.
+Proof. exact wapi_core. Qed.
+
+(* the hypotheses of C17_owed_wake_notifies are met by a reachable state: 3 parties, the receiver parks, two
+   vote, the third is dropped without having voted and has not called wake yet *)
+Theorem C17_owed_wake_witness :
+  let w := wexec (winit 3) [WLoad1; WRegister; WLoad2; WV 0 MVote; WV 1 MVote; WV 2 MDrop] in
+  WInv w /\ all_set (shared (core w)) = true /\ phase w = RParked /\ woken w = false /\ pend w = [2].
+Proof.
+  split; [apply wexec_inv, winv_init; auto|]. vm_compute. auto.
+Qed.
